@@ -421,7 +421,7 @@ func newGSIBlock(s Subtitles) (g *gsiBlock) {
 
 	// Timecode first in cue
 	if len(s.Items) > 0 {
-		g.timecodeFirstInCue = s.Items[0].StartAt
+		g.timecodeFirstInCue = s.Items[0].StartAt + g.timecodeStartOfProgramme
 	}
 	return
 }
@@ -778,14 +778,17 @@ func parseTTIBlock(p []byte, framerate int) *ttiBlock {
 
 // bytes transforms the TTI block into []byte
 func (t *ttiBlock) bytes(g *gsiBlock) (o []byte) {
+	// Items are relative to the timecode start of programme (the reader subtracts it), timecodes are not
+	var timecodeIn, timecodeOut = t.timecodeIn + g.timecodeStartOfProgramme, t.timecodeOut + g.timecodeStartOfProgramme
+
 	o = append(o, byte(uint8(t.subtitleGroupNumber))) // Subtitle group number
 	var b = make([]byte, 2)
 	binary.LittleEndian.PutUint16(b, uint16(t.subtitleNumber))
 	o = append(o, b...)                                                                                              // Subtitle number
 	o = append(o, byte(uint8(t.extensionBlockNumber)))                                                               // Extension block number
 	o = append(o, t.cumulativeStatus)                                                                                // Cumulative status
-	o = append(o, formatDurationSTLBytes(t.timecodeIn, g.framerate)...)                                              // Timecode in
-	o = append(o, formatDurationSTLBytes(t.timecodeOut, g.framerate)...)                                             // Timecode out
+	o = append(o, formatDurationSTLBytes(timecodeIn, g.framerate)...)                                                // Timecode in
+	o = append(o, formatDurationSTLBytes(timecodeOut, g.framerate)...)                                               // Timecode out
 	o = append(o, validateVerticalPosition(t.verticalPosition, g.displayStandardCode))                               // Vertical position
 	o = append(o, t.justificationCode)                                                                               // Justification code
 	o = append(o, t.commentFlag)                                                                                     // Comment flag
